@@ -219,7 +219,10 @@ class Execution(object):
                     pass
             self._after_close(io)
             self.obs.append({"k": "call-close", "t": 0, "n": 0})
-            io.close()
+            if len(self.program) % 2:
+                io.terminate()                  # "Same as close"
+            else:
+                io.close()
             self._after_close(io)
         except schedmod.SchedAbort:
             raise
